@@ -23,8 +23,16 @@ def replay(deep):
     real = item.text
     rew = real
     for r, a in (("R3", ""), ("R6", ""), ("R4", "")):
-        rew, _, _ = tp.RULES[r](rew, a)
-    binary, err = native.build_replayer("char_range_gen", {"GEN_FN": real, "GEN_FN_REWRITTEN": rew})
+        try:
+            rew, _, _ = tp.RULES[r](rew, a)
+        except tp.TransplantError:
+            rew = real      # the construct is gone on this tree: the oracle comparison below still runs on the original text
+            break
+    # the whole generator file becomes a module (so that items the function refers to - constants, helpers - are present); only `pub` is added
+    def as_module(fn_text):
+        whole = src[:item.toks[item.first].start] + "pub " + fn_text + src[item.toks[item.last].end:]
+        return whole.replace("fn main()", "pub fn __gen_main()")
+    binary, err = native.build_replayer("char_range_gen", {"GEN_FN": as_module(real), "GEN_FN_REWRITTEN": as_module(rew)})
     if binary is None:
         return {"built": False, "error": err}
     rc, out, _ = native.run(binary, [4 if deep else 3], timeout=1500)
